@@ -31,13 +31,19 @@ type Pod struct {
 
 type PDB struct {
 	NS, Name string
-	Sel      *map[string]string
+	Sel      *map[string]string // nil = no selector at all; otherwise matchLabels (possibly empty)
+	Exprs    []Expr             // matchExpressions (only with Sel != nil)
 	Allowed  int32
 	Always   bool
 	// harness-only dimensions (the model must be independent of them)
 	IfHealthy     bool // UnhealthyPodEvictionPolicy = IfHealthyBudget written out
 	FullyBlocking bool // Spec.MaxUnavailable = 0 (only the scheduling simulation reads it)
 	Invalid       bool // selector that LabelSelectorAsSelector rejects: pdb.NewLimits fails
+}
+
+type Expr struct {
+	Key, Op string
+	Values  []string
 }
 
 type Pool struct {
@@ -182,7 +188,9 @@ func (p Pod) G() string {
 func (b PDB) G() string {
 	sel := "None"
 	if b.Sel != nil {
-		sel = "(Some " + gMap(*b.Sel) + ")"
+		sel = "(Some (" + gMap(*b.Sel) + ", " + kit.GListOf(b.Exprs, func(e Expr) string {
+			return "(" + gs(e.Key) + ", " + gs(e.Op) + ", " + kit.GListOf(e.Values, gs) + ")"
+		}) + "))"
 	}
 	return fmt.Sprintf("(mkPdb %s %s %s %s %s)", gs(b.NS), gs(b.Name), sel, gz(int64(b.Allowed)), kit.GBool(b.Always))
 }
